@@ -1,4 +1,5 @@
 import Utv.Lemmas.C20
+import Utv.Lemmas.C20Reg
 /-!
 C20 — concurrent use is safe, including the first use of a type.
 
@@ -166,5 +167,75 @@ theorem C20_legacy_not_linearizable :
   have := h1.length_le
   obtain ⟨t, ht⟩ := h1
   cases t <;> simp at ht
+
+
+/-! ## Lookups in the shared converter registry (`TypeRegistry.resolve`, cache fill) -/
+
+open Utv.C16 (World Entry Det lookup) in
+/-- **C20, registry.**  Threads that only look converters up (what parsing does): under every schedule, for
+every class world, every registry content whose cache is consistent, with or without the cache, before or
+after the lookup patch — every finished lookup returned what it returns alone, i.e. the first matching entry. -/
+theorem C20_registry_lookups_linearizable (W : Utv.C16.World) (co lg : Bool) (g : Reg.G)
+    (prog : Nat → List Reg.Op) (hn : ∀ k, Reg.noRegister (prog k) = true)
+    (hc : Reg.CacheOK W g.entries g.cache) (sched : List Nat) (k : Nat) :
+    ((Reg.run W co lg (Reg.init g prog) sched).th k).outs <+: Reg.answers W g.entries (prog k) :=
+  ⟨_, ((Reg.inv_run sched (Reg.inv_init (lg := lg) hn hc)).tinv k).hist⟩
+
+theorem C20_registry_finished_all (W : Utv.C16.World) (co lg : Bool) (g : Reg.G)
+    (prog : Nat → List Reg.Op) (hn : ∀ k, Reg.noRegister (prog k) = true)
+    (hc : Reg.CacheOK W g.entries g.cache) (sched : List Nat) (k : Nat)
+    (h : ((Reg.run W co lg (Reg.init g prog) sched).th k).pc = .fin) :
+    ((Reg.run W co lg (Reg.init g prog) sched).th k).outs = Reg.answers W g.entries (prog k) := by
+  have T := (Reg.inv_run (co := co) sched (Reg.inv_init (lg := lg) hn hc)).tinv k
+  have := T.hist
+  rw [T.finE h] at this
+  simpa [Reg.answers] using this
+
+/-- the cache stays consistent with the entries, so later sequential lookups are right as well -/
+theorem C20_registry_cache_consistent (W : Utv.C16.World) (co lg : Bool) (g : Reg.G)
+    (prog : Nat → List Reg.Op) (hn : ∀ k, Reg.noRegister (prog k) = true)
+    (hc : Reg.CacheOK W g.entries g.cache) (sched : List Nat) :
+    let s := Reg.run W co lg (Reg.init g prog) sched
+    s.g.entries = g.entries ∧ Reg.CacheOK W g.entries s.g.cache :=
+  let I := Reg.inv_run (co := co) sched (Reg.inv_init (lg := lg) hn hc)
+  ⟨I.ent, I.cache⟩
+
+/-! ### The hypothesis `noRegister` is needed: a registration that races with a lookup -/
+
+/-- class 2 is a subclass of class 1 -/
+def Wr : Utv.C16.World where
+  issub t c := t == c || (t == 2 && c == 1)
+  isinst _ _ := false
+  hasattr _ _ := false
+  custom _ _ := none
+  shortcut _ := none
+  fallback _ := none
+
+def eB : Utv.C16.Entry := ⟨.std [1] true none none, 20, 0⟩   -- register(C1) -> f20
+def eC : Utv.C16.Entry := ⟨.std [2] true none none, 30, 0⟩   -- register(C2) -> f30
+def gB : Reg.G := { entries := [eB], cache := [] }
+def raceProg : Nat → List Reg.Op := fun k => if k = 0 then [.res 2, .res 2] else if k = 1 then [.reg eC] else []
+
+/-- non-vacuity of the hypotheses of `C20_registry_lookups_linearizable` -/
+example : (∀ k, Reg.noRegister ((fun k => if k < 3 then [Reg.Op.res 2, .res 1] else []) k) = true)
+    ∧ Reg.CacheOK Wr gB.entries gB.cache :=
+  ⟨fun k => by by_cases h : k < 3 <;> simp [h, Reg.noRegister], fun _ _ h => by simp [gB, Utv.C16.lookup] at h⟩
+
+/-- Before fixes/C20-registry-cache-lookup.patch: thread 0 finds class 2 in the cache, thread 1 registers a
+converter (which clears the cache), thread 0 then indexes the cache: `KeyError` out of `resolve`. -/
+theorem C20_registry_legacy_keyerror_witness :
+    ((Reg.run Wr true true (Reg.init gB raceProg) [0,0,0,0,0, 1,1,1,1, 0]).th 0).outs
+      = [.fn (some 20), .keyError] := by
+  decide +kernel
+
+/-- With the lookup patch no error escapes, but a registration that races with a lookup can still be lost for
+the class being looked up: thread 0 has found the old converter, thread 1 registers a better one and clears the
+cache, thread 0 stores the old converter — the *next* lookup (started after the registration returned) still
+gets the old one although the registry now selects the new one.  (Known finding `register-races-with-lookup`.) -/
+theorem C20_registry_register_race_witness :
+    let s := Reg.run Wr true false (Reg.init gB raceProg) [0,0,0, 1,1,1,1, 0,0]
+    (s.th 0).outs = [.fn (some 20), .fn (some 20)] ∧ (s.th 1).pc = .fin
+      ∧ Reg.answer Wr s.g.entries 2 = some 30 := by
+  decide +kernel
 
 end Utv.C20
